@@ -48,6 +48,7 @@ the former and is exercised by correspondence.
 -/
 import Sds.Proofs.Glue4
 import Sds.Proofs.GenEqView
+import Sds.Proofs.GenEqMapNew
 
 namespace Sds.C13
 open Sds Outcome
@@ -384,5 +385,22 @@ theorem mapped_accessors_as_translated_from_source (m : Mode) (v : RawVec) (iv :
   ⟨GenEq.mapper_bit_def, GenEq.mapper_int_def, GenEq.mapper_get_def, GenEq.mapper_bit_eq m v i, GenEq.mapper_word_eq m v i,
    fun hw ho hin => GenEq.mapper_int_eq m v off w hw ho hin, fun hwf hb => GenEq.mapper_get_eq m iv i hwf hb,
    fun h => GenEq.mapper_count_ones_eq m v h⟩
+
+/-! **The view constructors as translated from the source on this run** (`Generated/FnsMapNew.lean`): `MappedSlice<T>::new`
+(with `T::elements() = k`; the `from_raw_parts` cast is the named payload `file[offset+1 ..][.. len·k]`), `MappedBytes::new`,
+`RawVectorMapper::new`, `IntVectorMapper::new` — the range tests `offset >= map.len()` (and `offset + 1 >= map.len()` of
+finding F11's repair), the header reads, `offset + 1 + len * elements > map.len()`, the delegation to the inner view — and
+`map_offset` / `map_len`.  The model views (`View.slice / bytes / raw / int`) that the theorems above are about are
+EXACTLY the images of what the translated constructors return, faults included, for every file and every offset (for the
+integer view in the release build: every file shorter than 2^64 elements). -/
+theorem view_constructors_as_translated_from_source (m : Mode) (k : Nat) (file : Array Word) (offset : Nat) :
+    View.slice m k file offset = (Generated.gen_MappedSlice_new m k file offset).bind (fun r => ok (GenEq.mn_sliceView k r)) ∧
+    View.bytes m file offset = (Generated.gen_MappedBytes_new m file offset).bind (fun r => ok (GenEq.mn_bytesView r)) ∧
+    View.raw m file offset = (Generated.gen_RawVectorMapper_new m file offset).bind (GenEq.mn_rawView m) ∧
+    (file.size < U64 → View.int m file offset = (Generated.gen_IntVectorMapper_new m file offset).bind (GenEq.mn_intView m)) ∧
+    (∀ r, Generated.gen_RawVectorMapper_map_offset m r = (GenEq.mn_rawView m r).bind (fun v => ok v.offset)) ∧
+    (∀ r, Generated.gen_IntVectorMapper_map_offset m r = (GenEq.mn_intView m r).bind (fun vw => ok vw.1.offset)) :=
+  ⟨GenEq.mapped_slice_view_eq m k file offset, GenEq.mapped_bytes_view_eq m file offset, GenEq.raw_mapper_view_eq m file offset,
+   fun h => GenEq.int_mapper_view_eq_of_size m file offset h, GenEq.raw_mapper_map_offset_eq m, GenEq.int_mapper_map_offset_eq m⟩
 
 end Sds.C13
